@@ -1,4 +1,5 @@
 import TenpyModel.C10.ExtProofsG
+import TenpyModel.C10.ExtProofsH
 /-!
 # C10 — property theorems of the extension round
 
@@ -97,6 +98,16 @@ theorem C10_build_MPO_denote {α Q : Type} [Semiring α] [Add Q] [Sub Q] [Zero Q
       Key.IdL (by rw [hst]; simpa using mem_of_keyIdx hl0) t
     simpa [denoteGraph] using this.symm
 
+/-- **`build_MPO` keeps the operator (infinite unit cell).**  For an infinite graph whose first and last bond carry the
+same ordered states (every state of the bond is entered and left), `n` unit cells of the built MPO — `IdL` on the left,
+`IdR` on the right — denote exactly the `IdL → IdR` paths through `n` copies of the graph: all terms lying completely inside
+the window. -/
+theorem C10_build_MPO_denote_window {α Q : Type} [Semiring α] [Add Q] [Sub Q] [Zero Q] [DecidableEq Q] {g : Graph α}
+    (h : GWF g) (cd : ChargeData Q) (ucw : Nat) (m : GMPO α Q) (hb : buildMPO g cd ucw = .ok m)
+    (hcyc : g.orderedStates.head? = g.orderedStates.getLast?) (n : Nat) :
+    Sym.Equiv (m.denoteWindow n) (pathsFrom Key.IdR (List.replicate n g.layers).flatten Key.IdL) :=
+  buildMPO_denoteWindow h cd ucw m hb hcyc n
+
 /-! ## the MPO methods that only change the representation -/
 
 /-- **Shape of a built MPO.**  A successful `build_MPO` on a well-formed graph returns `L` rectangular grids and index
@@ -188,15 +199,17 @@ charges to its states at all: `IdL` on the first bond neutral, the charge rule
 states and charges on the first and the last bond.  Then whenever `_calc_legcharges` returns, the charge it gives to
 *every* state of *every* bond — found by `travel_q_LR` from `IdL`, copied around the unit cell, or solved from the
 right by `travel_q_RL` — is the one of `c` (compared through any map `π` respecting `+`, `-`, `0` and `make_valid`,
-e.g. reduction modulo `N` for `Z_N` charges).  In particular the result does not depend on the order in which the
+e.g. reduction modulo `N` for `Z_N` charges; without any conserved charge, `qnumber = 0`, the charge group is trivial).
+In particular the result does not depend on the order in which the
 stack visits the states. -/
 theorem C10_legcharges_consistent {α Q Q' : Type} [Add Q] [Sub Q] [Zero Q] [AddCommGroup Q'] (g : Graph α)
     (cd : ChargeData Q) (π : Q → Q') (c : Nat → Key → Q') (hπ : ChargeHom π cd)
-    (hc : Consistent π g.L g.infinite g.layers g.orderedStates cd c) (legs : List (List Q))
+    (hc : Consistent π g.L g.infinite g.layers g.orderedStates cd c)
+    (hnc : cd.noCharges = true → ∀ x y : Q', x = y) (legs : List (List Q))
     (h : legcharges g cd = .ok legs) :
     ∀ (b idx : Nat) (q : Q) (key : Key), (legs.getD b [])[idx]? = some q →
       (g.orderedStates.getD b [])[idx]? = some key → π q = c b key :=
-  legcharges_agree g cd π c hπ hc legs h
+  legcharges_agree g cd π c hπ hc hnc legs h
 
 /-- **Charge rule of the built `W` tensors.**  Under the hypotheses of `C10_legcharges_consistent`, every edge
 `(keyL, keyR, op)` of site `i` sits in a block of `W_i` that satisfies the charge rule
@@ -204,13 +217,14 @@ theorem C10_legcharges_consistent {α Q Q' : Type} [Add Q] [Sub Q] [Zero Q] [Add
 the grid. -/
 theorem C10_legcharges_rule {α Q Q' : Type} [Add Q] [Sub Q] [Zero Q] [AddCommGroup Q'] (g : Graph α)
     (cd : ChargeData Q) (π : Q → Q') (c : Nat → Key → Q') (hπ : ChargeHom π cd)
-    (hc : Consistent π g.L g.infinite g.layers g.orderedStates cd c) (legs : List (List Q))
+    (hc : Consistent π g.L g.infinite g.layers g.orderedStates cd c)
+    (hnc : cd.noCharges = true → ∀ x y : Q', x = y) (legs : List (List Q))
     (h : legcharges g cd = .ok legs) (i : Nat) (e : Edge Key α) (he : e ∈ g.layers.getD i []) (a b : Nat) (qa qb : Q)
     (ha : keyIdx (g.orderedStates.getD i []) e.kL = some a) (hb : keyIdx (g.orderedStates.getD (i + 1) []) e.kR = some b)
     (hqa : (legs.getD i [])[a]? = some qa) (hqb : (legs.getD (i + 1) [])[b]? = some qb) :
     π (qa - qb + cd.qop i e.op - cd.wq i) = 0 := by
-  have h1 := legcharges_agree g cd π c hπ hc legs h i a qa e.kL hqa (keyIdx_getElem? ha)
-  have h2 := legcharges_agree g cd π c hπ hc legs h (i + 1) b qb e.kR hqb (keyIdx_getElem? hb)
+  have h1 := legcharges_agree g cd π c hπ hc hnc legs h i a qa e.kL hqa (keyIdx_getElem? ha)
+  have h2 := legcharges_agree g cd π c hπ hc hnc legs h (i + 1) b qb e.kR hqb (keyIdx_getElem? hb)
   rw [hπ.sub, hπ.add, hπ.sub, h1, h2, hc.edge i e he]
   abel
 
@@ -231,7 +245,7 @@ def extG : Graph Int :=
 
 /-- one U(1) charge: `Sp` raises it, `Sm` lowers it -/
 def extCd : ChargeData Int :=
-  ⟨fun _ _ => true, fun _ n => if n = "Sp" then 1 else if n = "Sm" then -1 else 0, fun _ => 0, id, fun a b => a < b⟩
+  ⟨fun _ _ => true, fun _ n => if n = "Sp" then 1 else if n = "Sm" then -1 else 0, fun _ => 0, id, fun a b => a < b, false⟩
 
 theorem extG_wf : GWF extG := C10_graph_add_wf 3 false extCalls (some true)
 
@@ -276,6 +290,9 @@ def extMi : GMPO Int Int := (buildMPO extGi extCd 2).toOption.getD ⟨.finite, [
 
 example : (buildMPO extGi extCd 2).toOption.isSome = true := by decide
 example : extMi.bc = Bc.infinite := by decide
+example : extGi.orderedStates.head? = extGi.orderedStates.getLast? := by decide
+example : canon 0 (extMi.denoteWindow 2) = canon 0 (pathsFrom Key.IdR (List.replicate 2 extGi.layers).flatten Key.IdL) := by
+  decide
 -- `enlarge_mps_unit_cell(2)`: one enlarged cell = two original cells; a finite MPO, factor 1 and factor 3/2 are rejected
 def extMe : GMPO Int Int := (enlargeUnitCell extMi 2 1).toOption.getD extMi
 example : (enlargeUnitCell extMi 2 1).toOption.isSome = true := by decide
